@@ -26,6 +26,54 @@ INVARIANTS = ['TermViewEqualsOpView', 'StoredHalf', 'HermitianWheneverTermsAre',
 WORKERS = int(os.environ.get('VERIF_TLC_WORKERS', '8'))
 
 
+# ------------------------------------------------------------------------------------------------
+# no TLC process may outlive the check: explicit timeouts on every run, and all descendants are killed on exit /
+# SIGTERM / SIGINT / SIGHUP (a killed check must not leave a JVM behind)
+# ------------------------------------------------------------------------------------------------
+TLC_TIMEOUT = int(os.environ.get('VERIF_TLC_TIMEOUT', '1500'))
+
+
+def _descendants(pid):
+    kids = {}
+    for name in os.listdir('/proc'):
+        if name.isdigit():
+            try:
+                with open('/proc/%s/stat' % name) as f:
+                    fields = f.read().rsplit(')', 1)[1].split()
+                kids.setdefault(int(fields[1]), []).append(int(name))
+            except (OSError, IndexError, ValueError):
+                pass
+    out, todo = [], [pid]
+    while todo:
+        for k in kids.get(todo.pop(), []):
+            out.append(k)
+            todo.append(k)
+    return out
+
+
+def _kill_children(*_sig):
+    import signal
+    for k in _descendants(os.getpid()):
+        try:
+            os.kill(k, signal.SIGKILL)
+        except OSError:
+            pass
+    if _sig:  # called as a signal handler: terminate with the conventional status
+        os._exit(128 + _sig[0])
+
+
+def _install_reaper():
+    import atexit
+    import signal
+    atexit.register(_kill_children)
+    for s in (signal.SIGTERM, signal.SIGINT, signal.SIGHUP):
+        try:
+            signal.signal(s, _kill_children)
+        except (ValueError, OSError):
+            pass
+
+
+
 def decl_cfg(lattices, maxdecl, profile, invariants=INVARIANTS):
     return dict(spec='Spec', constants=dict(Lattices='<-' + lattices, MaxDecl=maxdecl, Profile=profile),
                 invariants=list(invariants), view='AbsView')
@@ -98,6 +146,8 @@ def diagnose_exporter(case, M, got, explicit):
         return 'stored-half-without-hc'
     if np.array_equal(got, res[False]):
         return 'op-strings-dropped' + ('+stored-half-without-hc' if explicit else '')
+    if explicit and np.array_equal(got, res[False] + res[False].conj().T):
+        return 'op-strings-dropped'     # the conjugate is added, the strings are still missing
     return 'other'
 
 
@@ -443,7 +493,7 @@ def spec_obs(items):
             f.write('\n'.join(lines) + '\n')
         cfgp = tlc.write_cfg(os.path.join(d, 'C10Obs.cfg'), spec='Spec',
                              constants=dict(Lattices='<-LatticesOne', MaxDecl=0, Profile='mc'))
-        res = tlc.run(mod, cfgp, workers=1, timeout=900)
+        res = tlc.run(mod, cfgp, workers=1, timeout=min(900, TLC_TIMEOUT))
         tlc.require_clean(res, 'C10Obs')
         out = {}
         txt = res.stdout
@@ -595,7 +645,7 @@ def run_trace(ctx, items, name, corrupt=False):
         with open(path, 'w') as f:
             json.dump(cases, f)
         cfgp = tlc.write_cfg(os.path.join(d, 'TraceMPOGraph.cfg'), spec='TraceSpec', invariants=['Done'])
-        res = tlc.run(os.path.join(tlc.SPEC_DIR, 'TraceMPOGraph.tla'), cfgp, workers=1, env=dict(TRACE_FILE=path), timeout=900)
+        res = tlc.run(os.path.join(tlc.SPEC_DIR, 'TraceMPOGraph.tla'), cfgp, workers=1, env=dict(TRACE_FILE=path), timeout=min(900, TLC_TIMEOUT))
         tlc.require_clean(res, 'TraceMPOGraph')
         verdict = printed_value(res.stdout, 'TRACE-VERDICT')
         if verdict is None or verdict[1] != len(cases) or res.violated:
@@ -785,7 +835,7 @@ def run_site_tables(ctx):
                     'Meta == [t \\in DOMAIN LocalTable |-> [n \\in Names(t) |-> <<HcName(n), NeedsJW(t, n), JWDiag(t)>>]]\n'
                     'Inv == x = 1 => PrintT(<<"TABLES", LocalTable, Meta>>)\n====\n')
         cfgp = tlc.write_cfg(os.path.join(d, 'C10Tables.cfg'), invariants=['Inv'])
-        res = tlc.run(mod, cfgp, workers=1)
+        res = tlc.run(mod, cfgp, workers=1, timeout=min(300, TLC_TIMEOUT))
         tlc.require_clean(res, 'C10Tables')
         val = printed_value(res.stdout, 'TABLES')
         if val is None:
@@ -819,7 +869,7 @@ def run_site_tables(ctx):
 
 
 def run_replay_mc(ctx, lattices, maxdecl, name, trace_items, stride=1, profile='mc', need_all_actions=True):
-    res, dump, d = tlc.mc('MPOGraph', decl_cfg(lattices, maxdecl, profile), dump=True, workers=WORKERS)
+    res, dump, d = tlc.mc('MPOGraph', decl_cfg(lattices, maxdecl, profile), dump=True, workers=WORKERS, timeout=TLC_TIMEOUT)
     ctx.add_mc(name, res)
     if res.violated:
         ctx.violation(dict(kind='mc', spec='ModelDecl', invariant=res.violated[0]),
@@ -850,7 +900,7 @@ def run_replay_mc(ctx, lattices, maxdecl, name, trace_items, stride=1, profile='
 def run_replay_sim(ctx, lattices, maxdecl, num, trace_items):
     per_worker = max(1, num // 4)
     res, traces, d = tlc.simulate('MPOGraph', decl_cfg(lattices, maxdecl, 'sim', invariants=[]), num=per_worker,
-                                  depth=2 * maxdecl + 2, seed=ctx.seed + 10, workers=4)
+                                  depth=2 * maxdecl + 2, seed=ctx.seed + 10, workers=4, timeout=TLC_TIMEOUT)
     shutil.rmtree(d, ignore_errors=True)
     n = 0
     for j, tr in enumerate(traces):
@@ -934,6 +984,7 @@ def run_replay_file(ctx, path):
 
 
 def check(ctx):
+    _install_reaper()
     quick = ctx.tier == 'quick'
     if getattr(ctx, 'replay_file', None):
         ctx.rule = 're-execution of one recorded case'
